@@ -813,8 +813,10 @@ pub fn outcome_signature(o: &ValOut) -> (String, String) {
             (format!("Ok {} {:?} {:?} [{}] body:{} principal:{:?} user:{}", r.parts.method, r.parts.uri, r.parts.version, h.join("|"), refm::sha_hex(&r.body), r.principal, user), String::new())
         }
         ValOut::Err(e) => {
+            // "…|classes": the message class is compared only when both sides have a recognised
+            // one (an unrecognised text is the prose's business, not the outcome's)
             let classes: Vec<&str> = libi::classify(e).iter().map(|r| r.name()).collect();
-            (format!("Err {} {} {} {:?}", e.kind, e.code, e.status, classes), e.display.clone())
+            (format!("Err {} {} {}|{:?}", e.kind, e.code, e.status, classes), e.display.clone())
         }
         ValOut::Panicked(m) => (format!("PANIC {}", m), String::new()),
         ValOut::Cancelled => ("Cancelled".into(), String::new()),
@@ -850,6 +852,18 @@ pub fn eval_item(accounts: &[Account], it: &CorpusItem) -> (String, String) {
         &mut t,
     );
     outcome_signature(&rep.outs[0])
+}
+
+/// Outcome signatures agree: identical, or identical up to a message class that one side does not
+/// recognise.
+pub fn same_outcome(a: &str, b: &str) -> bool {
+    if a == b {
+        return true;
+    }
+    match (a.rsplit_once('|'), b.rsplit_once('|')) {
+        (Some((ab, ac)), Some((bb, bc))) => ab == bb && (ac == "[]" || bc == "[]"),
+        _ => false,
+    }
 }
 
 /// `sigsim c18child`: fresh process (fresh globals, real hash keys): first use of every lazy
@@ -895,7 +909,7 @@ pub fn c18_child_main() -> i32 {
         let sig = eval_item(&accounts, it).0;
         for c in &contended {
             for (j, s2) in c {
-                if *j == i && *s2 != sig {
+                if *j == i && !same_outcome(s2, &sig) {
                     println!("CONTENDED-MISMATCH {} :: {} :: {}", i, sig, s2);
                 }
             }
@@ -927,7 +941,7 @@ fn run_c18(t: &mut Tape, tier: Tier) -> RunOut {
         }
     }
     let compare = |out: &mut RunOut, how: &str, i: usize, got: &(String, String)| {
-        if got.0 != golden[i].0 {
+        if !same_outcome(&got.0, &golden[i].0) {
             // phases whose schedule the simulator does not control get their own clause: such a
             // failure is re-found by re-running, not replayed step by step (driver::UNCONTROLLED)
             let clause = if how.contains("real parallel") {
@@ -1099,7 +1113,7 @@ fn run_c18(t: &mut Tape, tier: Tier) -> RunOut {
                             if let Some((i, sig)) = rest.split_once(' ') {
                                 if let Ok(i) = i.parse::<usize>() {
                                     seen += 1;
-                                    if i < golden.len() && sig != golden[i].0 {
+                                    if i < golden.len() && !same_outcome(sig, &golden[i].0) {
                                         out.violate("C18", "same-outcome-in-a-fresh-process", format!("corpus[{}]: fresh process gave {:?}, golden {:?}", i, sig, golden[i].0));
                                     }
                                 }
@@ -1662,7 +1676,7 @@ fn c13_case(mi: usize, m0: &Message, atoms: &[Atom], accounts: &Vec<Account>, no
             return;
         }
         let sig = |o: &ValOut| match o {
-            ValOut::Err(e) => format!("{} {} {:?}", e.kind, e.status, libi::classify(e).iter().map(|r| r.name()).collect::<Vec<_>>()),
+            ValOut::Err(e) => format!("{} {}|{:?}", e.kind, e.status, libi::classify(e).iter().map(|r| r.name()).collect::<Vec<_>>()),
             other => other.short(),
         };
         let unclassified = |o: &ValOut| o.err().map(|e| libi::classify(e).is_empty()).unwrap_or(false);
@@ -1681,7 +1695,7 @@ fn c13_case(mi: usize, m0: &Message, atoms: &[Atom], accounts: &Vec<Account>, no
             return;
         }
         out.probe("precedence_twin_compared");
-        if sig(&dout) != sig(&tout) {
+        if !same_outcome(&sig(&dout), &sig(&tout)) {
             out.violate(
                 "C13",
                 "earliest-failing-check-reported",
